@@ -12,6 +12,15 @@ PROP = dict(
                        "scheme_relative_takes_parent_scheme (a //host reference under a parent gets the parent's scheme, RFC 3986 5.2.2)",
                        "state_independent (an object parsed before normalisation, as the sources do for seeds, gives the same String(), Raw and parsed URL as a fresh one; String() is the text of the parsed URL; for an object that was also stringed before: same outcome class and Raw)",
                        "string_cache_fresh (String() and the parsed URL are canonical also on an object whose String() was called before normalisation)"]),
+        # the same normaliser reached through the pipeline: seed -> preprocess() -> 3xx with a Location header -> postprocessItem() ->
+        # preprocess(); the Location texts are the url generator's references, weighted towards those on which RFC 3986 / net/url and
+        # the URL standard disagree (backslashes, tabs, blanks, %2e dot segments, "\\\\host", empty / "." / "..")
+        dict(driver="urlredir", binary="zurl", quick=2500, thorough=60000, shard=400,
+             monitors=["redirect_target_is_normalize (the redirect target's URL is what NormalizeURL gives for (Location text, parent): nothing in between interprets the reference)",
+                       "shape_ok (as in the url leg) and the request goes to the canonical URL",
+                       "resolve_keeps_origin (as in the url leg)",
+                       "resolve_in_directory (as in the url leg)",
+                       "scheme_relative_takes_parent_scheme (as in the url leg)"]),
         # "resolve against the PARENT": which URL the callers hand to NormalizeURL as the parent. The driver of C07 builds seed trees with
         # redirect chains through the real postprocess()/preprocess(); only its monitor 4 belongs to this property (every hop of a chain
         # of Location headers is resolved against the item it was found on, not against the seed)
